@@ -3,21 +3,27 @@ HARNESS = "harness/c17.cpp"
 DRIVER_MODE = "c17"
 LEAN_MODULES = ["AdaptaVerif.Props.C17"]
 LEVEL = "proof"
-LEVEL_TEXT = ("Lean models of floyd_warshall (in-place triple loop as coded in /repo now), dijkstra/johnsons (over an "
-              "abstract minimum-selection) and of the layout's D matrix are proved exact for ALL valid finite "
-              "multigraphs (fw_correct, dijkstra_correct, johnsons_correct, layoutD_correct); the functional model of "
-              "PairingHeap<T> is proved to refine a multiset over all legal operation sequences. Independently, every "
-              "matrix returned by the real C++ functions and by readLinearD/readLinearG is decided per run by a Lean "
-              "checker proved sound AND complete for all finite graphs (checkApsp_iff: accepted <=> exact minimum "
-              "over all walks, sentinel iff no walk). The defect of the pre-fix initialisation (parallel edges keep the "
-              "last weight, self-loops overwrite the diagonal) is proved on concrete witnesses; it was replayed on the "
-              "C++ and repaired by a fix: commit in /repo.")
-LEVEL_NOTE = ("Theorems are about the Lean models; the tie to the C++ is the per-run correspondence (sampled, exact "
-              "equality of all matrices, exact extraction order incl. ties for the heap) plus the verified checker on "
-              "the real outputs. Doubles are imported exactly (hex floats); generated weights are dyadic (k/8) so the "
-              "C++ sums are exact; readLinearD is compared within 1e-9 relative. Dijkstra is proved over any queue that "
-              "hands out a minimum (SelSpec); that the pairing-heap model provides one is pairingheap_findMin_is_minimum, "
-              "the glue between the two (heap state vs. selector function) is not formalised.")
+LEVEL_TEXT = ("Lean models of floyd_warshall (in-place triple loop as coded in /repo now), of dijkstra/johnsons exactly as "
+              "coded (dijkstraHeap: driven by the functional model of PairingHeap<T,TCompare> with insert / extractMin / "
+              "decreaseKey) and of the layout's D matrix are proved exact for ALL valid finite multigraphs (fw_correct, "
+              "dijkstraHeap_correct, johnsonsHeap_correct, layoutD_correct; also dijkstra_correct over any abstract "
+              "minimum-selection); the pairing-heap model is proved to refine a multiset over all legal operation "
+              "sequences for any lawful comparison. Independently, every matrix returned by the real C++ functions and by "
+              "readLinearD/readLinearG is decided per run by a Lean checker proved sound AND complete for all finite "
+              "graphs (checkApsp_iff: accepted <=> exact minimum over all walks, sentinel iff no walk). The defect of the "
+              "pre-fix initialisation (parallel edges keep the last weight, self-loops overwrite the diagonal) is proved "
+              "on concrete witnesses; it was replayed on the C++ and repaired by a fix: commit in /repo.")
+LEVEL_NOTE = ("Theorems are about the Lean models; the tie to the C++ is the per-run correspondence (sampled: exact equality "
+              "of all matrices; for n <= 64 also the exact order in which nodes leave the heap in every dijkstra run, ties "
+              "included, observed by instantiating the library's dijkstra<T> template with a logging double wrapper; exact "
+              "extraction order of the real PairingHeap<T> on random operation sequences) plus the verified checker on the "
+              "real outputs. The heap-driven Dijkstra proof is a simulation: the heap holds exactly the pairs (d[v], v) of "
+              "the unsettled nodes and stays heap-ordered under extractMin and every decreaseKey, so it hands out a "
+              "minimum pending node and the abstract-queue invariant applies - the former gap between heap state and "
+              "stateless selector is closed. The model keeps the key next to the node identity whereas the C++ heap stores "
+              "node pointers and reads u->d at comparison time (equal whenever the heap is touched). Doubles are imported "
+              "exactly (hex floats); generated weights are dyadic (k/8) so the C++ sums are exact; readLinearD is compared "
+              "within 1e-9 relative.")
 TECHNIQUE = "Lean 4 theorems (invariant proofs for Floyd-Warshall and Dijkstra, checker soundness+completeness, heap refinement, witnesses by kernel evaluation) + verified certificate check on real outputs + model correspondence"
 RULE = ("8 fixed boundary cases, then random graphs cycled over 13 classes (sparse, dense, disconnected, tree, zero-weight, "
         "fractional k/8, unit/empty weights, self-loop, parallel-edges, nonpositive layout lengths, tiny, path, "
@@ -29,7 +35,7 @@ TRUSTED_BASE = ["Lean 4.33 kernel", "axioms: propext, Classical.choice, Quot.sou
                 "harness + hex-float import; DBL_MAX recognised as the sentinel",
                 "IEEE exactness of + and * on small dyadic values; DBL_MAX + x >= DBL_MAX for x >= 0"]
 ASSUMPTIONS = ["weights >= 0 (the property's domain); end points < n",
-               "model comparison of floyd_warshall only for n <= 64 (the verified checker runs on all sizes)",
+               "model comparison of floyd_warshall and of the heap-driven dijkstra (incl. extraction order) only for n <= 64 (the verified checker runs on all sizes)",
                "G matrix diagonal is not an observable (left uninitialised by the library unless a self-loop writes it)"]
 
 def plan(tier, seed, searching):
